@@ -527,6 +527,27 @@ fn main() {
         );
     }
 
+    // ------------------------------------------------------------------------------------- P3 (quick part)
+    // The operators that compile to jumps (`and`, `or`, the ternary) are the ones whose code
+    // depends on what surrounds them: every operator triple that holds at least two of them runs
+    // in the quick tier too (seeded change C02-6: a same-operator `and` / `or` run shared one exit,
+    // also across a `not`, a comparison, a `~` or a literal in between - `t and not (f and t)`).
+    if !thorough {
+        let jumpy: Vec<usize> = classes.iter().enumerate().filter(|(_, (n, _))| matches!(n.as_str(), "or" | "and" | "if-else")).map(|(i, _)| i).collect();
+        assert_eq!(jumpy.len(), 3, "operator classes or / and / if-else exist");
+        let triples: Vec<Vec<usize>> = fam::p_multisets(3).into_iter().filter(|ms| ms.iter().filter(|c| jumpy.contains(c)).count() >= 2).collect();
+        run.family(
+            Family::new(
+                "P3-jump-operators",
+                triples.len() as u64,
+                &format!("every multiset of 3 operator classes that holds at least two of or / and / if-else ({} multisets), every tree, every leaf assignment of the pool (the thorough tier runs all triples as P3)", triples.len()),
+            )
+            .describe(|i| json!({"operator_classes": triples[i as usize].iter().map(|c| classes[*c].0.clone()).collect::<Vec<_>>()}))
+            .timeout(180.0),
+            |item, acc: &mut Acc| p_class_item(&triples[item as usize], acc),
+        );
+    }
+
     // ------------------------------------------------------------------------------------- P3
     if thorough {
         let triples = fam::p_multisets(3);
